@@ -53,12 +53,13 @@ def build_shim():
     out = os.path.join(BUILD, "shim.so")
     os.makedirs(BUILD, exist_ok=True)
     if not os.path.exists(out) or os.path.getmtime(out) < os.path.getmtime(src):
-        p = subprocess.run(["gcc", "-O2", "-shared", "-fPIC", "-o", out + ".tmp", src, "-ldl", "-pthread"],
+        tmp = "%s.%d.tmp" % (out, os.getpid())
+        p = subprocess.run(["gcc", "-O2", "-shared", "-fPIC", "-o", tmp, src, "-ldl", "-pthread"],
                            stdout=subprocess.PIPE, stderr=subprocess.STDOUT, text=True)
         if p.returncode != 0:
             sys.stderr.write(p.stdout)
             raise ToolFailure("shim build failed")
-        os.replace(out + ".tmp", out)
+        os.replace(tmp, out)
     return out
 
 
